@@ -663,3 +663,63 @@ UNITS += [
          assumptions=["dot_product uninterpreted (the unit decides which vectors are projected on the normal, not the accuracy)"],
          note="Plane::calc_intersections: distance > 0 or none; none on the surface or for a direction perpendicular to the normal; otherwise (d - n.pos) / (n.dir)"),
 ]
+
+
+# ---------------------------------------------------------------------------
+# Translation: transform_down is the inverse of transform_up (exact-integer abstraction of real_type); directions are untouched
+# ---------------------------------------------------------------------------
+TRL = "src/orange/transform/Translation.hh"
+TRL_MODEL = """
+typedef struct { real_type v[3]; } Real3;
+typedef struct { Real3 tra_; } Translation;
+static Real3 ADD3(Real3 a, Real3 b) { Real3 r = {{a.v[0] + b.v[0], a.v[1] + b.v[1], a.v[2] + b.v[2]}}; return r; }     /* Array operator+ (ArrayOperators.hh): componentwise */
+static Real3 SUB3(Real3 a, Real3 b) { Real3 r = {{a.v[0] - b.v[0], a.v[1] - b.v[1], a.v[2] - b.v[2]}}; return r; }     /* Array operator- */
+#define EQ3(a, b) ((a).v[0] == (b).v[0] && (a).v[1] == (b).v[1] && (a).v[2] == (b).v[2])
+#define RNG3(a) ((a).v[0] > -(1l << 40) && (a).v[0] < (1l << 40) && (a).v[1] > -(1l << 40) && (a).v[1] < (1l << 40) && (a).v[2] > -(1l << 40) && (a).v[2] < (1l << 40))
+"""
+TRL_RULES = [
+    Rule(r"return (\w+) \+ tra_;", r"return ADD3(\1, self->tra_);", (0, 1), note="Array operator+"),
+    Rule(r"return (\w+) - tra_;", r"return SUB3(\1, self->tra_);", (0, 1), note="Array operator-"),
+    Rule(r"return tra_ \+ (\w+);", r"return ADD3(self->tra_, \1);", (0, 1), note="Array operator+"),
+    Rule(r"return tra_ - (\w+);", r"return SUB3(self->tra_, \1);", (0, 1), note="Array operator-"),
+]
+
+
+def build_translation(ctx):
+    up = ctx.func(TRL, r"^CELER_FORCEINLINE_FUNCTION Real3 Translation::transform_up\(Real3 const& pos\) const", TRL_RULES, name="Translation::transform_up")
+    dn = ctx.func(TRL, r"^Translation::transform_down\(Real3 const& parent_pos\) const", TRL_RULES, name="Translation::transform_down")
+    ru = ctx.func(TRL, r"^Translation::rotate_up\(Real3 const& d\) const", [], name="Translation::rotate_up")
+    rd = ctx.func(TRL, r"^Translation::rotate_down\(Real3 const& d\) const", [], name="Translation::rotate_down")
+    return (HDR + TRL_MODEL + """
+static Real3 TRL_up(Translation const* self, Real3 pos)
+{""" + up.body + """}
+static Real3 TRL_down(Translation const* self, Real3 parent_pos)
+{""" + dn.body + """}
+static Real3 TRL_rotate_up(Translation const* self, Real3 d)
+{""" + ru.body + """}
+static Real3 TRL_rotate_down(Translation const* self, Real3 d)
+{""" + rd.body + """}
+void h_trl(void)
+{
+    Translation t; Real3 p, d;
+    __CPROVER_assume(RNG3(t.tra_) && RNG3(p));
+    Real3 u = TRL_up(&t, p);
+    __CPROVER_assert(u.v[0] == p.v[0] + t.tra_.v[0] && u.v[1] == p.v[1] + t.tra_.v[1] && u.v[2] == p.v[2] + t.tra_.v[2], "translation.up_adds: daughter -> parent adds the translation");
+    Real3 back = TRL_down(&t, u);
+    __CPROVER_assert(EQ3(back, p), "translation.down_inverts_up: transform_down(transform_up(p)) == p");
+    Real3 dn = TRL_down(&t, p);
+    Real3 fwd = TRL_up(&t, dn);
+    __CPROVER_assert(EQ3(fwd, p), "translation.up_inverts_down: transform_up(transform_down(p)) == p");
+    Real3 r1 = TRL_rotate_up(&t, d), r2 = TRL_rotate_down(&t, d);
+    __CPROVER_assert(EQ3(r1, d) && EQ3(r2, d), "translation.directions_untouched");
+    VERIF_CANARY();
+}
+""")
+
+
+UNITS += [
+    Unit("c12_translation", build_translation, "h_trl", timeout=120, backend=["sat"], defines=["VERIF_REAL_AS_INT"],
+         bounded="real_type abstracted to exact 64-bit integers (|values| < 2^40): the inverse property holds in exact arithmetic only (in IEEE arithmetic up to one rounding per component)",
+         must_have=[r"translation.up_adds", r"translation.down_inverts_up", r"translation.up_inverts_down", r"translation.directions_untouched"], checks=["--bounds-check", "--pointer-check", "--signed-overflow-check"],
+         note="Translation: transform_up adds the translation, transform_down is its inverse (both compositions), rotate_up / rotate_down leave directions untouched"),
+]
